@@ -33,8 +33,8 @@ static int compare_files(const void *l, const void *r)
 	   and the others are ordered by start block. */
 	if ((lhs_size % block_size) && (lhs_frag_off < block_size) &&
 	    (lhs_frag_idx != 0xFFFFFFFF)) {
-		if ((rhs_size % block_size) && (rhs_frag_off < block_size) &&
-		    (rhs_frag_idx != 0xFFFFFFFF))
+		if (!((rhs_size % block_size) && (rhs_frag_off < block_size) &&
+		      (rhs_frag_idx != 0xFFFFFFFF)))
 			return -1;
 
 		if (lhs_frag_idx < rhs_frag_idx)
